@@ -1,6 +1,6 @@
 """Hostile caller: every list the public API hands out is edited in place right after the check has taken its copy.
 
-A caller is free to reverse, trim or extend a list it received. If the library handed out an object it still holds (a memoised
+A caller is free to reverse, trim or extend a list it received (an empty one too). If the library handed out an object it still holds (a memoised
 result, a module-level table), that edit changes what later calls return - the check's ordinary oracles then see wrong results.
 On a tree that returns fresh objects the edits touch garbage only. Installed on the names of the `a5` package namespace (what
 the checks call); the library's internal calls are not affected. A result that *is* one of the arguments is passed through
@@ -27,8 +27,7 @@ def _wrap(fn):
             res.reverse()
             if res:
                 res.pop()
-            if res:
-                res.append(res[0])
+            res.append(res[0] if res else 0)   # an empty list gets an element: callers do collect into lists they were given
             return mine
         return res
     hostile_caller.__name__ = name
